@@ -281,12 +281,12 @@ fn main() {
     }
     for (a, b) in pairs {
         let (Some(oa), Some(ob)) = (opd(a, sp), opd(b, sp)) else { continue };
-        let form = match ctx.rng.below(3) {
-            0 => "var",
-            1 if ob.literal => "imm",
-            2 if oa.literal && ob.literal => "lit",
-            _ => "var",
-        };
+        // every applicable operand form for every pair: the ten comparison *Imm arms and the folded forms are
+        // separate code paths from the variable/variable arms
+        let mut forms_here: Vec<&'static str> = vec!["var"];
+        if ob.literal { forms_here.push("imm"); }
+        if oa.literal && ob.literal { forms_here.push("lit"); }
+        for form in forms_here {
         let lt = total_lt(a, b);
         let gt = total_lt(b, a);
         let eq = a == b;
@@ -300,6 +300,7 @@ fn main() {
             what: format!("{} ? {} ({} ? {})", oa.expr, ob.expr, hex64(a), hex64(b)),
             spec: Some(spec),
         });
+        }
     }
 
     // ---------------------------------------------------------------- arithmetic, all operand forms
